@@ -88,6 +88,8 @@ pub trait HashObj: Any {
     fn store_bytes(&self, buf: &mut [u8]) -> Obs<Result<usize, String>>;
     fn store_str(&self, buf: &mut [u8], with_prefix: bool) -> Obs<Result<usize, String>>;
     fn display(&self) -> Obs<String>;
+    /// Display under format specs with width, fill, alignment and precision
+    fn display_spec(&self) -> Obs<Vec<String>>;
     fn to_string_(&self) -> Obs<String>;
     fn cleared(&self) -> Obs<Vec<u8>>;
     fn compare(&self, other: &dyn HashObj, no_length: bool) -> Obs<u32>;
@@ -253,6 +255,17 @@ macro_rules! impl_variant {
             }
             fn to_string_(&self) -> Obs<String> {
                 obs(|| self.0.to_string())
+            }
+            fn display_spec(&self) -> Obs<Vec<String>> {
+                obs(|| {
+                    vec![
+                        format!("{:>160}", self.0),
+                        format!("{:<150}", self.0),
+                        format!("{:*^149}", self.0),
+                        format!("{:.8}", self.0),
+                        format!("{:10.3}", self.0),
+                    ]
+                })
             }
             fn cleared(&self) -> Obs<Vec<u8>> {
                 let mut c = self.0.clone();
